@@ -1,2 +1,3 @@
 import Driver.Slice
 import Driver.Tree
+import Driver.Xdr
